@@ -301,6 +301,12 @@ func (c *Ctx) checkAsyncSemantics(r *Report, ro *Roles, rule string) bool {
 				submitted = append(submitted, it)
 				return finish(mkTask(it))
 			}
+			// an event below the logger's own range [250, max): not a submission — it must be neither queued, delivered nor counted,
+			// whatever the state of the buffer (it is left out of `submitted`, so any trace of it shows as a deviation)
+			submitDisabled := func() bool {
+				next++
+				return finish(mkTask(item{n: next, level: 100}))
+			}
 			total := capN + extra
 			okRun := true
 			if race < 0 {
@@ -370,6 +376,13 @@ func (c *Ctx) checkAsyncSemantics(r *Report, ro *Roles, rule string) bool {
 					lvl = 450
 				}
 				okRun = submit(i%5 == 4, lvl, 0)
+				if okRun && i%7 == 6 {
+					okRun = submitDisabled()
+				}
+			}
+			// … and disabled events arriving at the full (or nearly full) buffer, where an overflow policy would act on them
+			for k := 0; k < 2 && okRun; k++ {
+				okRun = submitDisabled()
 			}
 			// the tail: small raw writes, then a large one, with no event in between
 			for _, sz := range []int{0, -1, 5000, -2} { // … and a nil and an empty payload: raw writes like any other
@@ -544,7 +557,7 @@ outer:
 		r.Fail(key, c.pos(T.Obj().Pos()), "%d deviations in %d scripted schedules, e.g. %s", nBad, runs, strings.Join(bad, "; "))
 	default:
 		okAll = true
-		r.OK(key, "%d scripted schedules (3 policies × logger layout on/off × 0/1/7 items beyond a capacity of %d submitted while the worker is held (events of two levels for two references, raw writes whose buffer the caller overwrites afterwards, a 5000-byte write after small ones) × Stop on a drained / full buffer × both choices where a select has several ready cases × two lives of the same value; plus two producers racing on the full buffer with the first interrupted after 1–6 channel operations): Start launches one worker; no producer call waits except under Block; delivered + counted-as-discarded = submitted, each once; delivery order is submission order; Discard drops the arriving items, DiscardOldest the oldest queued ones, Block none; Stop returns after everything accepted was delivered and the worker has finished", runs, capN)
+		r.OK(key, "%d scripted schedules (3 policies × logger layout on/off × 0/1/7 items beyond a capacity of %d submitted while the worker is held (events of two levels for two references, events below the logger's own range in between and on the full buffer, raw writes whose buffer the caller overwrites afterwards, a 5000-byte write after small ones) × Stop on a drained / full buffer × both choices where a select has several ready cases × two lives of the same value; plus two producers racing on the full buffer with the first interrupted after 1–6 channel operations): Start launches one worker; no producer call waits except under Block; delivered + counted-as-discarded = submitted, each once; delivery order is submission order; Discard drops the arriving items, DiscardOldest the oldest queued ones, Block none; Stop returns after everything accepted was delivered and the worker has finished", runs, capN)
 	}
 	return okAll
 }
